@@ -5,6 +5,43 @@
 
 using namespace gen;
 
+// a line that chunk fitting has to pad is encoded twice by the library (once at the unpadded position, once behind
+// the padding): the instruction behind the NOPs must still be the one written
+static void run_fitted(hz::Ctx &ctx, const LineCase &c, bool nested = false) {
+  if (!nested && !ctx.take()) return;   // nested: called from inside a case this worker already owns (all workers must see the same take() sequence)
+  std::string id = "F|" + serialize(c); if (!ctx.begin(id, text(c.it))) return;
+  auto plain = al::assemble(text(c.it), c.combo); if (plain.rc != 0 || plain.bytes.empty()) return;
+  size_t L = plain.bytes.size(); if (L < 2) return;
+  int chunk = L < 8 ? 8 : 16; int start = chunk - 1;   // one byte left in the chunk: every instruction of 2+ bytes must be padded
+  std::vector<uint8_t> buf(128, 0xcc); assemblyline_t a = asm_create_instance(buf.data(), 128); al::apply_opts(a, combo_opts(c.combo)); asm_set_chunk_size(a, chunk); asm_set_offset(a, start);
+  int rc = asm_assemble_str(a, text(c.it).c_str()); int off = asm_get_offset(a); asm_destroy_instance(a);
+  ctx.cls("part:re-encoded-by-fitting"); ctx.nontrivial(id);
+  std::string why;
+  if (rc != 0) why = "fitting call failed";
+  else { // everything in front of the last L bytes must be NOP padding (the line itself may be a NOP)
+    size_t p = (size_t)off >= (size_t)start + L ? (size_t)off - L : (size_t)start; size_t q = start; bool padok = true; while (q < p) { x86::Insn n = x86::decode(buf.data() + q, p - q); if (!n.ok || !n.isnop) { padok = false; break; } q += n.len; }
+    if (!padok || (size_t)off - p != L || memcmp(buf.data() + p, plain.bytes.data(), L)) why = "behind the padding the instruction is " + x86::hex(buf.data() + p, off - p) + " ; assembled plainly it is " + x86::hex(plain.bytes.data(), L); }
+  if (!why.empty()) { hz::Failure f = make_failure(c, "re-encoding", why); f.caseid = id; f.tags.push_back("group:fitted"); ctx.fail(f); }
+}
+
+// the same line assembled behind a context line in one call must give the same bytes as alone (state of the
+// previous line must not leak): applied to a sample of every line-level corpus
+static void run_context(hz::Ctx &ctx, const LineCase &c, bool nested = false) {
+  static const char *CTX[] = {"add rax, rbx", "mov al, 1", "vpaddd ymm1, ymm2, [eax+ebx*2+0x100]", "jmp 5", "mov byte [rdi], 5", "shl cx, 3", "mulx rax, rbx, rcx", "push r12", "mov rax, 0x1122334455667788", "lea r15, [2*rax]", "movq xmm9, r10", "nop7", "test dword [r8d+r9d], 0x80000000", "setne bl", "xchg ax, cx", "call [rsp+8]"};
+  if (!nested && !ctx.take()) return;
+  std::string id = "K|" + serialize(c); if (!ctx.begin(id, text(c.it))) return;
+  const char *cl = CTX[hz::fnv(id) % 16];
+  auto alone = al::assemble(text(c.it), c.combo), first = al::assemble(cl, c.combo);
+  auto both = al::assemble(std::string(cl) + "\n" + text(c.it) + "\n", c.combo);
+  ctx.cls("part:after-context-line"); ctx.nontrivial(id);
+  if (first.rc != 0) return;
+  std::string why;
+  if (both.rc != alone.rc) why = std::string("return code ") + std::to_string(both.rc) + " behind \"" + cl + "\", " + std::to_string(alone.rc) + " alone";
+  else if (alone.rc == 0 && (both.bytes.size() != first.bytes.size() + alone.bytes.size() || memcmp(both.bytes.data() + first.bytes.size(), alone.bytes.data(), alone.bytes.size())))
+    why = std::string("behind \"") + cl + "\" the line assembles to " + x86::hex(both.bytes.data() + std::min(first.bytes.size(), both.bytes.size()), both.bytes.size() - std::min(first.bytes.size(), both.bytes.size())) + " ; alone to " + x86::hex(alone.bytes.data(), alone.bytes.size());
+  if (!why.empty()) { hz::Failure f = make_failure(c, "context-dependent", why); f.caseid = id; f.tags.push_back("group:context"); ctx.fail(f); }
+}
+
 static void run_case(hz::Ctx &ctx, const LineCase &c, const std::function<bool(const LineCase &)> &nontrivial,
                      const std::function<void(const LineCase &, const Verdict &, hz::Ctx &)> &extra = nullptr) {
   if (!ctx.take()) return;
@@ -16,6 +53,10 @@ static void run_case(hz::Ctx &ctx, const LineCase &c, const std::function<bool(c
   if (ctx.want_sample()) ctx.put_sample(text(c.it) + "  [" + combo_name(c.combo) + "] -> " + (v.res.rc == 0 ? x86::hex(v.res.bytes.data(), v.res.bytes.size()) : std::string("EXIT_FAILURE")));
   if (!v.ok) { ctx.fail(make_failure(c, v.symptom, v.detail)); return; }
   if (extra) extra(c, v, ctx);
+  // a sample of every corpus is also assembled behind a context line and where chunk fitting has to re-encode it
+  uint64_t hsel = hz::fnv(id) >> 9;
+  if (hsel % 29 == 0) run_context(ctx, c, true);
+  if (hsel % 31 == 1) run_fitted(ctx, c, true);
 }
 
 static std::vector<int> combos_for(hz::Ctx &ctx, uint64_t key, bool sib_matters, bool mov_matters) {
@@ -164,24 +205,6 @@ static void prop_c03_exec(hz::Ctx &ctx) {
 }
 void prop_c03(hz::Ctx &ctx) { prop_c03_encoding(ctx); prop_c03_exec(ctx); }
 
-// a line that chunk fitting has to pad is encoded twice by the library (once at the unpadded position, once behind
-// the padding): the instruction behind the NOPs must still be the one written
-static void run_fitted(hz::Ctx &ctx, const LineCase &c) {
-  if (!ctx.take()) return;
-  std::string id = "F|" + serialize(c); if (!ctx.begin(id, text(c.it))) return;
-  auto plain = al::assemble(text(c.it), c.combo); if (plain.rc != 0 || plain.bytes.empty()) return;
-  size_t L = plain.bytes.size(); if (L < 2) return;
-  int chunk = L < 8 ? 8 : 16; int start = chunk - 1;   // one byte left in the chunk: every instruction of 2+ bytes must be padded
-  std::vector<uint8_t> buf(128, 0xcc); assemblyline_t a = asm_create_instance(buf.data(), 128); al::apply_opts(a, combo_opts(c.combo)); asm_set_chunk_size(a, chunk); asm_set_offset(a, start);
-  int rc = asm_assemble_str(a, text(c.it).c_str()); int off = asm_get_offset(a); asm_destroy_instance(a);
-  ctx.cls("part:re-encoded-by-fitting"); ctx.nontrivial(id);
-  std::string why;
-  if (rc != 0) why = "fitting call failed";
-  else { size_t p = start; while (p < (size_t)off) { x86::Insn n = x86::decode(buf.data() + p, off - p); if (!n.ok || !n.isnop) break; p += n.len; }
-    if ((size_t)off - p != L || memcmp(buf.data() + p, plain.bytes.data(), L)) why = "behind the padding the instruction is " + x86::hex(buf.data() + p, off - p) + " ; assembled plainly it is " + x86::hex(plain.bytes.data(), L); }
-  if (!why.empty()) { hz::Failure f = make_failure(c, "re-encoding", why); f.caseid = id; f.tags.push_back("group:fitted"); ctx.fail(f); }
-}
-
 // ---------------------------------------------------------------- C04
 void prop_c04(hz::Ctx &ctx) {
   auto nontriv = [](const LineCase &c) { for (auto &o : c.it.ops) { if ((o.k == K_GPR || o.k == K_XMM || o.k == K_YMM) && o.reg >= 8) return true; if (o.k == K_GPR && o.width == 32) return true; if (o.k == K_MEM) return true; } return false; };
@@ -268,6 +291,7 @@ void prop_c05(hz::Ctx &ctx) {
         RelVerdict rv = check_rel(c);
         if (ctx.want_sample()) ctx.put_sample(text(c.it) + " -> " + (rv.res.rc == 0 ? x86::hex(rv.res.bytes.data(), rv.res.bytes.size()) : std::string("EXIT_FAILURE")));
         if (!rv.ok) ctx.fail(make_failure(c, rv.symptom, rv.detail));
+        else if (rv.res.rc == 0) { uint64_t hsel = hz::fnv(id) >> 9; if (hsel % 13 == 0) run_context(ctx, c, true); if (hsel % 11 == 1) run_fitted(ctx, c, true); }
       }
     }
   }
@@ -290,12 +314,16 @@ void prop_c05(hz::Ctx &ctx) {
 
 // replay of one serialized line case under the generic oracle (C01-C04 and the indirect part of C05)
 int replay_line(const std::string &prop, const std::string &caseid) {
+  if (caseid.compare(0, 2, "K|") == 0) {
+    LineCase c; if (!parse_case(caseid.substr(2), c)) return 2; hz::Ctx ctx; ctx.out = fopen("/dev/null", "w"); ctx.hashfile.clear(); run_context(ctx, c, true);
+    bool bad = ctx.classes.count("violations") && ctx.classes["violations"] > 0; printf("%s behind a context line: %s\n", text(c.it).c_str(), bad ? "FAIL" : "OK"); return bad ? 1 : 0;
+  }
   if (caseid.compare(0, 2, "F|") == 0) {
     LineCase c; if (!parse_case(caseid.substr(2), c)) return 2; hz::Ctx ctx; ctx.out = fopen("/dev/null", "w"); long before = 0; (void)before;
     auto plain = al::assemble(text(c.it), c.combo); size_t L = plain.bytes.size(); int chunk = L < 8 ? 8 : 16, start = chunk - 1;
     std::vector<uint8_t> buf(128, 0xcc); assemblyline_t a = asm_create_instance(buf.data(), 128); al::apply_opts(a, combo_opts(c.combo)); asm_set_chunk_size(a, chunk); asm_set_offset(a, start); int rc = asm_assemble_str(a, text(c.it).c_str()); int off = asm_get_offset(a); asm_destroy_instance(a);
-    size_t p = start; while (rc == 0 && p < (size_t)off) { x86::Insn n = x86::decode(buf.data() + p, off - p); if (!n.ok || !n.isnop) break; p += n.len; }
-    bool ok = rc == 0 && (size_t)off - p == L && !memcmp(buf.data() + p, plain.bytes.data(), L);
+    size_t p = (size_t)off >= (size_t)start + L ? (size_t)off - L : (size_t)start; size_t q = start; bool padok = rc == 0; while (padok && q < p) { x86::Insn n = x86::decode(buf.data() + q, p - q); if (!n.ok || !n.isnop) { padok = false; break; } q += n.len; }
+    bool ok = padok && (size_t)off - p == L && !memcmp(buf.data() + p, plain.bytes.data(), L);
     printf("%s [chunk %d, start %d]: plain %s ; fitted %s\n", text(c.it).c_str(), chunk, start, x86::hex(plain.bytes.data(), L).c_str(), x86::hex(buf.data() + start, off > start ? off - start : 0).c_str()); printf(ok ? "OK\n" : "FAIL\n"); return ok ? 0 : 1;
   }
   if (caseid.compare(0, 2, "X|") == 0) {
